@@ -144,8 +144,24 @@ func (c *c17) RunCase(w *core.Worker, idx int, seed uint64, res *core.CaseResult
 		}
 	}
 	base["/cons/lrefs"] = "LL:b0,b1"
+	// list entries whose mandatory leaf only the base intent holds: the transaction adds to those entries, the mandatory
+	// check is answered from the index of the intended store (many such checks run side by side)
+	nM := 0
+	if rng.Chance(1, 2) {
+		nM = 4 + rng.Intn(12)
+		for i := 0; i < nM; i++ {
+			base["/cons/mlist[k=bm"+strconv.Itoa(i)+"]/req"] = "r"
+		}
+	}
 	if _, ok := run.commit([]stepIntent{{Owner: "base", Prio: 50, Vals: base, Kind: "create"}}); !ok {
 		return
+	}
+	if nM > 0 {
+		// ... and the device has not reported them (yet): they are in the intended store only
+		if err := run.fc.Modify(run.ctx, run.ds.Name, &cache.Opts{Store: cachepb.Store_CONFIG}, [][]string{{"cons", "mlist"}}, nil); err != nil {
+			res.Inconclusive("C17/seed-running", "%v", err)
+			return
+		}
 	}
 	// ---- the wide transaction
 	nInt := 1 + rng.Intn(3)
@@ -243,6 +259,13 @@ func (c *c17) RunCase(w *core.Worker, idx int, seed uint64, res *core.CaseResult
 		if rng.Chance(1, 3) {
 			vals["/cons/rng-s"] = []string{"-5", "0"}[rng.Intn(2)]
 		}
+		if i == 0 {
+			for m := 0; m < nM; m++ {
+				if m == 0 || rng.Chance(3, 4) {
+					vals["/cons/mlist[k=bm"+strconv.Itoa(m)+"]/opt"] = "o"
+				}
+			}
+		}
 		step = append(step, stepIntent{Owner: owner, Prio: int32(10 + 10*i), Vals: vals, Kind: "create"})
 	}
 	if rng.Chance(1, 3) {
@@ -313,7 +336,7 @@ func (c *c17) RunCase(w *core.Worker, idx int, seed uint64, res *core.CaseResult
 	var treeRef string
 	for i := 0; i < 4 && len(res.Findings) == 0; i++ {
 		runtime.GOMAXPROCS([]int{prev, 16, 4, 2}[i])
-		v, err := c.treeValidate(run, step, i == 0)
+		v, err := c.treeValidate(run, step, i == 0, false)
 		if err != nil {
 			res.Inconclusive("C17/tree-mode", "%v", err)
 			break
@@ -325,6 +348,25 @@ func (c *c17) RunCase(w *core.Worker, idx int, seed uint64, res *core.CaseResult
 		}
 		if v != treeRef {
 			res.Violate("C17/verdict-differs/tree-concurrent-vs-sequential", "tree built with the tree package, concurrent run %d differs from the sequential reference\n--- concurrent\n%s\n--- sequential\n%s\n  transaction: %s", i, v, treeRef, stepString(step))
+		}
+	}
+	// ---- the same with a store that could not list its keys until validation starts (every GetKeys before fails: the
+	// key indexes are loaded lazily, by whichever validator asks first, while the others are running)
+	var lazyRef string
+	for i := 0; i < 4 && len(res.Findings) == 0; i++ {
+		runtime.GOMAXPROCS([]int{prev, 16, 4, 2}[i])
+		v, err := c.treeValidate(run, step, i == 0, true)
+		if err != nil {
+			res.Inconclusive("C17/tree-mode", "lazy index: %v", err)
+			break
+		}
+		res.Count("tree_validations_with_lazily_loaded_index", 1)
+		if i == 0 {
+			lazyRef = v
+			continue
+		}
+		if v != lazyRef {
+			res.Violate("C17/verdict-differs/tree-concurrent-vs-sequential/lazy-index", "tree built with the tree package, key indexes loaded during validation, concurrent run %d differs from the sequential reference\n--- concurrent\n%s\n--- sequential\n%s\n  transaction: %s", i, v, lazyRef, stepString(step))
 		}
 	}
 	runtime.GOMAXPROCS(prev)
@@ -388,9 +430,25 @@ func b2i(b bool) int {
 
 // treeValidate builds the tree of the transaction the way lowlevelTransactionSet does (old content of the intents flagged
 // for deletion, new content, the best alternatives of the other owners, the running store) and validates it.
-func (c *c17) treeValidate(run *histRun, step []stepIntent, sequential bool) (string, error) {
+func (c *c17) treeValidate(run *histRun, step []stepIntent, sequential bool, lazyIndex bool) (string, error) {
 	ctx := run.ctx
-	tcc := tree.NewTreeCacheClient(run.ds.Name, c.h.env.Cache)
+	var cc cache.Client = c.h.env.Cache
+	var validating atomic.Bool
+	if lazyIndex {
+		fc := fixture.NewFaultCache(c.h.env.Cache)
+		fc.Before = func(call fixture.CacheCall) error {
+			if call.Method == "GetKeys" && !validating.Load() {
+				return fmt.Errorf("store cannot list its keys (scripted)")
+			}
+			if call.Method == "GetKeys" && call.Store == cachepb.Store_INTENDED {
+				// listing the keys of a store takes its time
+				time.Sleep(5 * time.Millisecond)
+			}
+			return nil
+		}
+		cc = fc
+	}
+	tcc := tree.NewTreeCacheClient(run.ds.Name, cc)
 	scb := schemaClient.NewSchemaClientBound(fixture.SchemaConfig().GetSchema(), c.h.env.Schema)
 	tc := tree.NewTreeContext(tcc, scb, run.ds.Name)
 	tcc.RefreshCaches(ctx)
@@ -444,6 +502,7 @@ func (c *c17) treeValidate(run *histRun, step []stepIntent, sequential bool) (st
 		}
 	}
 	root.FinishInsertionPhase(ctx)
+	validating.Store(true)
 	vr := root.Validate(ctx, &config.Validation{DisableConcurrency: sequential})
 	var l []string
 	for _, e := range vr.ErrorsStr() {
